@@ -50,6 +50,24 @@ func c03Case(c *mon.Ctx, idx int, r *mon.Rand) {
 	} else {
 		vspec = r.ValueSpec(64)
 	}
+	if r.Chance(1, 10) {
+		// bounds whose bit patterns add up to zero (0; x and -x): the set of the
+		// other kind with the same bounds has the same identity
+		k := float64(r.Range(1, 64)) / 4
+		switch r.Intn(3) {
+		case 0:
+			vspec, dspec = []float64{0}, []time.Duration{0}
+		case 1:
+			vspec, dspec = []float64{-k, k}, []time.Duration{-time.Duration(k * float64(time.Second)), time.Duration(k * float64(time.Second))}
+		default:
+			vspec, dspec = []float64{-k, 0, k}, []time.Duration{-time.Duration(k * float64(time.Second)), 0, time.Duration(k * float64(time.Second))}
+		}
+		if isDur {
+			vspec = nil
+		} else {
+			dspec = nil
+		}
+	}
 	// what the histogram is created with, and what the effective spec is
 	var arg tally.Buckets
 	var rootDefault tally.Buckets
@@ -542,6 +560,12 @@ func eventsNamed(log []mon.Event, name string) []mon.Event {
 // same additive identity.
 func c03Twins(r *mon.Rand, isDur bool, v []float64, d []time.Duration) []tally.Buckets {
 	var out []tally.Buckets
+	// the same bounds expressed in the other kind (seconds <-> durations)
+	if isDur && len(d) >= 1 && len(d) <= 4 {
+		out = append(out, tally.ValueBuckets(tally.DurationBuckets(d).AsValues()))
+	} else if !isDur && len(v) >= 1 && len(v) <= 4 {
+		out = append(out, tally.DurationBuckets(tally.ValueBuckets(v).AsDurations()))
+	}
 	// the same set extended by bounds that add nothing to the additive identity
 	// (a zero value bound; a duration and its negative): a longer set of which
 	// the spec is a prefix
